@@ -295,7 +295,20 @@ func GenSession(rd *core.Rand, dialect string, thorough bool) (*Script, *sessMet
 		case "template":
 			t := core.Pick(rd, templatesFor(Templates, d))
 			stmt, ms, ss := Instantiate(t, d, rd, nil)
-			sc.Steps = append(sc.Steps, Step{Kind: "simple", SQL: stmt})
+			st := Step{Kind: "simple", SQL: stmt}
+			if d == "pg" && len(ms) > 0 && rd.Chance(35) {
+				// the database answers with rows that hold the statement's own values (`select 'x'` echoes x; a
+				// search returns what was searched for): they travel back through the response processors
+				for k := 0; k < 1+rd.Intn(2); k++ {
+					var row []string
+					for c := 0; c < 1+rd.Intn(3); c++ {
+						row = append(row, core.Hex([]byte(core.Pick(rd, ms))))
+					}
+					st.Rows = append(st.Rows, row)
+				}
+				st.Rows = [][]string{st.Rows[0]}
+			}
+			sc.Steps = append(sc.Steps, st)
 			sc.Needles = append(sc.Needles, needlesOfLits(first, ms, ss)...)
 		case "bound":
 			t := core.Pick(rd, templatesFor(Templates, d))
